@@ -339,7 +339,12 @@ def derive(case, vseed, identity=False):
             others = [d for d in detours if d[0] == ev]
             sel_src = [src] if (others or coin(0.6)) else None
             reps = case.get('remove_reps', ['str'])
-            steps.append({'k': 'remove', 'ev': ev, 'src': sel_src, 'dst': [DETOUR_STATE], 'rep': rng.choice(reps)})
+            srcrep = rng.choice(reps)
+            if srcrep == 'obj' and src not in sim.states:
+                srcrep = 'enum'             # a State object can only be named once it is registered
+            dstrep = rng.choice([r for r in reps if r != 'obj'] or ['str'])
+            steps.append({'k': 'remove', 'ev': ev, 'src': sel_src, 'dst': [DETOUR_STATE], 'srcrep': srcrep,
+                          'dstrep': dstrep})
             if last:
                 maybe_detour(True)
         elif not last and coin(0.25):
@@ -484,8 +489,11 @@ def enc_variant(case, variant):
                 o2 += enc_oarg(st['args'][kk])
             ops.append(o2)
         elif k == 'remove':
-            ops.append([3, st['ev']] + ([0] if st['src'] is None else [1] + _l(st['src'])) +
-                       ([0] if st['dst'] is None else [1] + _l(st['dst'])))
+            def sel(x, rep):
+                if x is None:
+                    return [0]
+                return [1, len(x)] + sum(([s, int(rep == 'str')] for s in x), [])
+            ops.append([3, st['ev']] + sel(st['src'], st['srcrep']) + sel(st['dst'], st['dstrep']))
         elif k == 'model':
             pass
         else:
@@ -760,12 +768,15 @@ class Run13(flat.FlatRun):
                 m.add_ordered_transitions(states=sts, trigger=ev_name(st['ev']), loop=st['loop'],
                                           loop_includes_initial=st['incl'], **okw)
             elif k == 'remove':
-                def sel(x):
+                def sel(x, rep):
                     if x is None:
                         return '*'
-                    l = [self.st(s, st['rep']) for s in x]
+                    l = [self.st(s, rep) for s in x]
+                    if rep == 'obj' and any(isinstance(e, str) for e in l):
+                        raise common.MachineryError('State selector for an unregistered state')
                     return l[0] if len(l) == 1 else l
-                m.remove_transition(ev_name(st['ev']), source=sel(st['src']), dest=sel(st['dst']))
+                m.remove_transition(ev_name(st['ev']), source=sel(st['src'], st['srcrep']),
+                                    dest=sel(st['dst'], st['dstrep']))
             else:
                 raise common.MachineryError('bad step %r' % (st,))
         if not attached:
